@@ -67,9 +67,64 @@ fn shared_try_receive_after_the_last_sender_is_dropped() {
     core::mem::forget(r);
 }
 """
+BC_VALUES = """
+/// C12 through the SHARED handles (found by seeded change C12_r71: a "move instead of clone while one receiver handle is
+/// left" fast path in the shared state's receive_or_register): EVERY receive yields a clone of the one value -- a future
+/// that was pending before the send, and any number of futures created after it, from one and the same receiver handle
+#[kani::proof]
+fn shared_every_receive_yields_a_clone_of_the_value() {
+    use core::future::Future;
+    let (s, r) = generic_oneshot_broadcast_channel::<NoopLock, u8>();
+    let wk = unsafe { core::task::Waker::from_raw(core::task::RawWaker::new(core::ptr::null(), &NOOP)) };
+    let mut cx = core::task::Context::from_waker(&wk);
+    let v: u8 = kani::any();
+    let early: bool = kani::any();
+    let mut f0 = core::mem::ManuallyDrop::new(r.receive());
+    if early {
+        let p = unsafe { core::pin::Pin::new_unchecked(&mut *f0) }.poll(&mut cx);
+        assert!(p.is_pending(), "[C12] nothing to receive before the send");
+    }
+    assert!(s.send(v).is_ok(), "[C12] the first send on an open channel succeeds");
+    let p = unsafe { core::pin::Pin::new_unchecked(&mut *f0) }.poll(&mut cx);
+    assert!(p == core::task::Poll::Ready(Some(v)), "[C12] broadcast: a receive that started before or after the send yields the value");
+    let mut f1 = core::mem::ManuallyDrop::new(r.receive());
+    let p = unsafe { core::pin::Pin::new_unchecked(&mut *f1) }.poll(&mut cx);
+    assert!(p == core::task::Poll::Ready(Some(v)), "[C12] broadcast: EVERY further receive yields a clone of the value, also while a single receiver handle is alive");
+    let mut f2 = core::mem::ManuallyDrop::new(r.receive());
+    let p = unsafe { core::pin::Pin::new_unchecked(&mut *f2) }.poll(&mut cx);
+    assert!(p == core::task::Poll::Ready(Some(v)), "[C12] broadcast: ... and the one after that");
+    assert!(s.send(v).is_err(), "[C12] every other send fails");
+    core::mem::forget((s, r));
+}
+"""
+ONE_VALUES = """
+/// C12 through the SHARED handles: exactly one receive yields the value, every other one None; a second send fails
+#[kani::proof]
+fn shared_exactly_one_receive_yields_the_value() {
+    use core::future::Future;
+    let (s, r) = generic_oneshot_channel::<NoopLock, u8>();
+    let wk = unsafe { core::task::Waker::from_raw(core::task::RawWaker::new(core::ptr::null(), &NOOP)) };
+    let mut cx = core::task::Context::from_waker(&wk);
+    let v: u8 = kani::any();
+    let early: bool = kani::any();
+    let mut f0 = core::mem::ManuallyDrop::new(r.receive());
+    if early {
+        let p = unsafe { core::pin::Pin::new_unchecked(&mut *f0) }.poll(&mut cx);
+        assert!(p.is_pending(), "[C12] nothing to receive before the send");
+    }
+    assert!(s.send(v).is_ok(), "[C12] the first send on an open channel succeeds");
+    let p = unsafe { core::pin::Pin::new_unchecked(&mut *f0) }.poll(&mut cx);
+    assert!(p == core::task::Poll::Ready(Some(v)), "[C12] the receive yields the value");
+    let mut f1 = core::mem::ManuallyDrop::new(r.receive());
+    let p = unsafe { core::pin::Pin::new_unchecked(&mut *f1) }.poll(&mut cx);
+    assert!(p == core::task::Poll::Ready(None), "[C12] single consumer: every other receive yields None");
+    assert!(s.send(v).is_err(), "[C12] every other send fails");
+    core::mem::forget((s, r));
+}
+"""
 cfg = {
- "oneshot": dict(PROP="C12", EXTRA="", RECEIVE="receive()", CHAN="GenericOneshotChannel", CLOSED="is_fulfilled", CTOR="generic_oneshot_channel", USE="", SENDER_COUNT="", SENDER_LAST="true", RECEIVER_COUNT="", RECEIVER_LAST="true", CLONE_TESTS=FRESH % dict(ctor="generic_oneshot_channel", asserts="")),
- "oneshot_broadcast": dict(PROP="C12", EXTRA="", RECEIVE="receive()", CHAN="GenericOneshotBroadcastChannel", CLOSED="is_fulfilled", CTOR="generic_oneshot_broadcast_channel", USE="use core::sync::atomic::Ordering;", SENDER_COUNT="", SENDER_LAST="true",
+ "oneshot": dict(PROP="C12", EXTRA=ONE_VALUES, RECEIVE="receive()", CHAN="GenericOneshotChannel", CLOSED="is_fulfilled", CTOR="generic_oneshot_channel", USE="", SENDER_COUNT="", SENDER_LAST="true", RECEIVER_COUNT="", RECEIVER_LAST="true", CLONE_TESTS=FRESH % dict(ctor="generic_oneshot_channel", asserts="")),
+ "oneshot_broadcast": dict(PROP="C12", EXTRA=BC_VALUES, RECEIVE="receive()", CHAN="GenericOneshotBroadcastChannel", CLOSED="is_fulfilled", CTOR="generic_oneshot_broadcast_channel", USE="use core::sync::atomic::Ordering;", SENDER_COUNT="", SENDER_LAST="true",
       RECEIVER_COUNT=COUNT % ("r", "receivers"), RECEIVER_LAST="(n == 1)", CLONE_TESTS=CLONE % dict(who="receiver", ctor="generic_oneshot_broadcast_channel", var="r", field="receivers") + fresh("generic_oneshot_broadcast_channel", ["receivers"])),
  "state_broadcast": dict(PROP="C13", EXTRA=TRY_RECV, RECEIVE="receive(StateId::new())", CHAN="GenericStateBroadcastChannel", CLOSED="is_closed", CTOR="generic_state_broadcast_channel", USE="use core::sync::atomic::Ordering;", SENDER_COUNT=COUNT % ("s", "senders"), SENDER_LAST="(n == 1)",
       RECEIVER_COUNT=COUNT % ("r", "receivers"), RECEIVER_LAST="(n == 1)", CLONE_TESTS=CLONE % dict(who="receiver", ctor="generic_state_broadcast_channel", var="r", field="receivers") + CLONE % dict(who="sender", ctor="generic_state_broadcast_channel", var="s", field="senders") + fresh("generic_state_broadcast_channel", ["senders", "receivers"])),
